@@ -85,6 +85,7 @@ func (m *CPU) Run(app risc.Application) (int, error) {
 	}()
 	cycle := 0
 	for {
+		m.ctx.VerifTick()
 		cycle++
 		log.Info(m.ctx, "Cycle %d", cycle)
 		m.decodeBus.Connect(cycle)
@@ -134,6 +135,7 @@ func (m *CPU) Run(app risc.Application) (int, error) {
 			cycle++
 			m.writeBus.Connect(cycle)
 			for !m.areWriteUnitsEmpty() || !m.writeBus.IsEmpty() {
+				m.ctx.VerifTick()
 				for _, wu := range m.writeUnits {
 					_ = wu.Cycle(wuReq{-1})
 				}
@@ -152,6 +154,7 @@ func (m *CPU) Run(app risc.Application) (int, error) {
 			fromCycle := cycle
 
 			for {
+				m.ctx.VerifTick()
 				isEmpty := true
 				cycle++
 				for _, eu := range m.executeUnits {
@@ -173,6 +176,7 @@ func (m *CPU) Run(app risc.Application) (int, error) {
 				m.writeBus.Connect(cycle + 1)
 				for _, wu := range m.writeUnits {
 					for !wu.isEmpty() || !m.writeBus.IsEmpty() {
+						m.ctx.VerifTick()
 						_ = wu.Cycle(wuReq{sequenceID})
 					}
 				}
